@@ -17,6 +17,7 @@ mod h_c17;
 mod h_proc;
 mod h_ps;
 mod h_rr;
+mod h_thr;
 mod h_ws;
 mod h_zc;
 mod kit;
@@ -32,10 +33,13 @@ fn harnesses() -> Vec<Box<dyn Harness>> {
         Box::new(h_ps::PubSubHarness { ipc: true, prop: "C01" }),
         Box::new(h_ps::PubSubHarness { ipc: false, prop: "C02" }),
         Box::new(h_ps::PubSubHarness { ipc: true, prop: "C02" }),
+        Box::new(h_thr::PubSubThreads { prop: "C01", ipc: false }),
+        Box::new(h_thr::PubSubThreads { prop: "C02", ipc: false }),
+        Box::new(h_zc::ConnDataHarness { prop: "C02" }),
         Box::new(h_c03::QueueHarness { kind: "iq" }),
         Box::new(h_c03::QueueHarness { kind: "oq" }),
         Box::new(h_c03::QueueHarness { kind: "q" }),
-        Box::new(h_zc::ConnDataHarness),
+        Box::new(h_zc::ConnDataHarness { prop: "C03" }),
         Box::new(h_c05::EventHarness { counting: false }),
         Box::new(h_c05::EventHarness { counting: true }),
         Box::new(h_proc::ProcHarness { kind: "c04" }),
@@ -51,6 +55,7 @@ fn harnesses() -> Vec<Box<dyn Harness>> {
         Box::new(h_c10::ContainerHarness),
         Box::new(h_rr::ReqRespHarness { ipc: false, prop: "C11" }),
         Box::new(h_rr::ReqRespHarness { ipc: true, prop: "C11" }),
+        Box::new(h_thr::ReqRespThreads { ipc: false }),
         Box::new(h_c12::AtomicHarness { typed: false }),
         Box::new(h_c12::AtomicHarness { typed: true }),
         Box::new(h_zc::ConnLifecycleHarness),
